@@ -67,7 +67,7 @@ func ClaimTask(c gocoro.Coroutine[*t_aio.Submission, *t_aio.Completion, any], r 
 		} else if t.Counter != r.ClaimTask.Counter {
 			status = t_api.StatusTaskInvalidCounter
 		} else {
-			expiresAt := c.Time() + int64(r.ClaimTask.Ttl)
+			expiresAt := util.AddSat(c.Time(), int64(r.ClaimTask.Ttl))
 
 			// claim the task and read its promises in the same transaction, so that the
 			// response reflects a single instant: a promise read after the claim could
